@@ -336,7 +336,17 @@ def isolation_worker(analysis: Analysis, spec) -> dict:
         hits = [e for e in s2.events if e.kind == "cb" and e.args and "'topic'" in repr(e.args[0].key())]
         if len(hits) != 1:
             skipped.append(describe_path((k, s2, v), 14))
-    return {"flavour": spec, "escapes": esc, "cbs": cbs, "prefixed": prefixed, "recv_cb": recv_cb, "one_paths": n_one, "skipped": skipped}
+    # the publish side: a raising publish callback never escapes MQTTTransport.send (the pump calls it bare)
+    it3 = analysis.new_interp(ctx)
+    st3, gw3 = analysis.gateway_state(it3)
+    st3.mem[(tr.key(), "a", "gateway")] = gw3
+    pub_esc, pub_cbs = [], 0
+    for out in analysis.run_root(it3, "gateway_mqtt:MQTTTransport.send", [Sym(("root", "message"), "str", nullable=True)], tr, st3):
+        k, s3, v = out
+        pub_cbs += sum(1 for e in s3.events if e.kind == "cb")
+        if k == "raise":
+            pub_esc.append((f"{v.cls.__name__} at {v.site}: {v.what}"[:120], describe_path(out, 14)))
+    return {"flavour": spec, "escapes": esc, "cbs": cbs, "prefixed": prefixed, "recv_cb": recv_cb, "one_paths": n_one, "skipped": skipped, "pub_escapes": pub_esc, "pub_cbs": pub_cbs}
 
 
 def run(analysis: Analysis, tier: str) -> RuleResult:
@@ -372,6 +382,7 @@ def run(analysis: Analysis, tier: str) -> RuleResult:
     for summ in common.pmap(analysis, isolation_worker, ["sync", "async"]):
         res.add("C17-R4", "gateway_mqtt:MQTTTransport.handle_subscription / a raising subscribe callback never escapes", not summ["escapes"], "mysensors/gateway_mqtt.py", "; ".join(summ["escapes"][:2]) or "caught and logged", context=summ["flavour"])
         res.add("C17-R4", "gateway_mqtt:MQTTTransport.handle_subscription / subscribes the inbound prefix + template with recv as callback", summ["cbs"] > 0 and summ["prefixed"] and summ["recv_cb"], "mysensors/gateway_mqtt.py", f"{summ['cbs']} callback events", context=summ["flavour"])
+        res.add("C17-R4", "gateway_mqtt:MQTTTransport.send / a raising publish callback never escapes (whatever it raises, however often)", not summ["pub_escapes"] and summ["pub_cbs"] > 0, "mysensors/gateway_mqtt.py", f"{summ['pub_cbs']} callback events, every raise caught and logged" if not summ["pub_escapes"] else summ["pub_escapes"][0][0] + ": the pump calls send() bare, so this ends the pump thread", summ["pub_escapes"][0][1] if summ["pub_escapes"] else None, context=summ["flavour"])
         ok1 = summ["one_paths"] > 0 and not summ["skipped"]
         res.add("C17-R3", "gateway_mqtt:MQTTTransport.handle_subscription / every requested topic is handed to the subscribe callback, exactly once", ok1, "mysensors/gateway_mqtt.py", f"{summ['one_paths']} paths for a single requested topic" if ok1 else "a path returns without passing the requested topic to the subscribe callback (e.g. skipped as already subscribed: a failed or forgotten subscription is never retried)", summ["skipped"][0] if summ["skipped"] else None, context=summ["flavour"])
     res.need("C17-R3", 8, "subscription obligations")
